@@ -2,7 +2,7 @@
     that the spec encoder writes for an image, returns the image. *)
 From Coq Require Import NArith List Bool Lia Arith Sorted.
 From KdV Require Import Fmt.Codec Fmt.CodecProofs Fmt.PfnModel Fmt.PfnProofs Fmt.BitmapSpec
-     Fmt.DiskdumpModel Fmt.DiskdumpSpec.
+     Fmt.ImageSpec Fmt.DiskdumpModel Fmt.DiskdumpSpec.
 Import ListNotations.
 Local Open Scope N_scope.
 
